@@ -848,7 +848,7 @@ func init() {
 func runDot(c *Ctx) *Violation {
 	t := c.T
 	c.Declare("self_loops", "edges_with_ports", "quoted_ids", "html_ids", "keyword_ids", "numeral_ids", "corrupted_accepted", "truncated_accepted",
-		"ast_string_reparse_failed", "structured_graphs", "subgraph_nodes", "accepted_remarshal_ok")
+		"ast_string_reparse_failed", "structured_graphs", "subgraph_nodes", "accepted_remarshal_ok", "nested_direction_mismatch")
 	kind := t.Choose(simrt.KWorkload, 4)
 	codec := dotCodec(kind)
 	used := map[string]bool{}
@@ -1067,6 +1067,7 @@ func runDotStructured(c *Ctx, used map[string]bool) *Violation {
 	}
 	addModel(top)
 	nsub := 1 + t.Choose(simrt.KWorkload, 2)
+	mismatch := false
 	what := "Structurer"
 	if variant == 0 {
 		c.Probe("structured_graphs", 1)
@@ -1087,6 +1088,29 @@ func runDotStructured(c *Ctx, used map[string]bool) *Violation {
 				gg.subs = append(gg.subs, sg.(dot.Multigraph))
 			}
 			addModel(sm)
+			// one run in eight: the subgraph holds a subgraph of the other
+			// direction, two levels below the graph handed to Marshal, which
+			// has to refuse it like a mismatch one level down ("dot:
+			// mismatched graph type") rather than print half a document
+			if i == 0 && t.Choose(simrt.KWorkload, 8) == 7 {
+				bad := dotDrawModel(c, kind^1, 2, 1, used, true)
+				bad.ga, bad.na, bad.ea = nil, nil, nil
+				bad.name = dotDrawUnique(t, used)
+				bg, _ := bad.build()
+				bg.common().name = bad.name
+				switch sgg := sg.(type) {
+				case *dotSD:
+					sgg.subs = append(sgg.subs, bg.(dot.Graph))
+				case *dotSU:
+					sgg.subs = append(sgg.subs, bg.(dot.Graph))
+				case *dotMD:
+					sgg.subs = append(sgg.subs, bg.(dot.Multigraph))
+				case *dotMU:
+					sgg.subs = append(sgg.subs, bg.(dot.Multigraph))
+				}
+				mismatch = true
+				c.Probe("nested_direction_mismatch", 1)
+			}
 		}
 	} else {
 		what = "Subgrapher"
@@ -1195,6 +1219,13 @@ func runDotStructured(c *Ctx, used map[string]bool) *Violation {
 		var err error
 		b, err = dotMarshal(g, "", "", " ")
 		c.Case("control", false, 10+uint64(variant))
+		if mismatch {
+			c.Oracle("nested-mismatch-refused")
+			if err == nil {
+				return viol("dot/"+codec+"/nested-mismatch-accepted", "Marshal returns no error for a graph whose subgraph holds a subgraph of the other direction, and this document:\n%s", b)
+			}
+			return nil
+		}
 		if err != nil {
 			return viol("dot/"+codec+"/marshal", "Marshal of a %s graph failed: %v", what, err)
 		}
